@@ -628,9 +628,10 @@ where
     };
     if split_dwarf {
         let dwo = output.with_extension("dwo");
-        common_args.push(OsString::from(
-            "-D_gsplit_dwarf_path=".to_owned() + dwo.to_str().unwrap(),
-        ));
+        // (the path need not be UTF-8)
+        let mut define = OsString::from("-D_gsplit_dwarf_path=");
+        define.push(dwo.as_os_str());
+        common_args.push(define);
         // -gsplit-dwarf doesn't guarantee .dwo file if no -g is specified
         outputs.insert(
             "dwo",
